@@ -898,7 +898,9 @@ func rulePull(c *Ctx) {
 			nPull++
 			badWhat := ""
 			for _, cc := range controlCondsPol(b) {
-				for v := range backSlice(cc.Cond) {
+				condSlice := map[ssa.Value]bool{}
+				sliceWithControl(cc.Cond, 0, condSlice) // a verdict helper (`if !s.beginRefresh() { return }`) decides by its own tests
+				for v := range condSlice {
 					var addr ssa.Value
 					switch x := v.(type) {
 					case *ssa.UnOp:
